@@ -402,7 +402,10 @@ func specs(c *runner.Ctx) []spec {
 	for _, pat := range []string{`[a-z]+`, `^\d{2}$`, `a|b`, `a,b`, `^it\'s$`, `^(x|y),z$`, `\\d+`, `^[ab]{2},?$`, `^1|x$`} {
 		pat := pat
 		re := regexp.MustCompile(pat)
-		for _, msg := range []string{"", "|bad", "|不对"} {
+		for _, msg := range []string{"", "|bad", "|不对", "|'x,y'", "|it's"} {
+			if strings.Contains(pat, `\'`) && strings.Contains(msg, "'") {
+				continue // an escaped quote in the pattern together with quotes in the message: which quotes pair up is not specified (§7)
+			}
 			out = append(out, spec{space: "re " + pat + msg, rule: "re='" + pat + "'" + msg,
 				rec: strRec(re.MatchString),
 				gen: func(emit func(reflect.Value)) {
@@ -603,6 +606,9 @@ func run(c *runner.Ctx) {
 			cars := []carrier.Kind{carrier.Var, carrier.StructTag}
 			if !carrier.TagOK(sp.rule) {
 				cars[1] = carrier.StructRM
+			} else if c.Index()%4 == 0 {
+				// (a quarter of the values also right after a call that shadowed the built-in names for itself)
+				cars = append(cars, carrier.StructTagLocalFn, carrier.VarLocalFn)
 			}
 			if v.Kind() == reflect.Bool {
 				cars = cars[1:] // Var(bool) is a separate question (C03)
